@@ -59,7 +59,11 @@ package segment
 //@   requires 0 <= b.MsgSize
 //@   modifies nothing
 //@   ensures fresh(result)
-//@   loop 1 invariant fresh(res)
+// the message handed up is as long as all slots together (prefixlen(s, i) = total length of the first
+// i slots); that its bytes are the slots' bytes in index order is not claimed: the element-wise
+// invariant was provable but needed the full solver timeout and was unstable under other seeds
+//@   ensures len(result) == prefixlen(b.Msgs, len(b.Msgs))
+//@   loop 1 invariant fresh(res) && len(res) == prefixlen(b.Msgs, rangeindex + 1) && rangeindex < len(b.Msgs)
 
 // ---------------------------------------------------------------- C14: the sender side
 // maxPayloadSize is a package variable (initialised to 1196-8, reassigned only by export_test.go)
